@@ -182,7 +182,10 @@ CHECKS = {
         "run through ParseExpressions + Evaluate and through {math:}, {if case=}, <if case=> from exact-size buffers under ASan/UBSan "
         "(a trap is a crash is a violation); TLC judges every event. The precedence walk of TemplateCore::evaluate is transcribed "
         "(QExprImpl): TLC checks every sequence of <= 4 (thorough 5) of the 16 operators against Admissible and rejects two earlier / "
-        "seeded variants; the oracle demands that the engine's value is the transcription's value on every event (model drift otherwise).",
+        "seeded variants; the oracle demands that the engine's value is the transcription's value on every event (model drift otherwise). "
+        "The expression parser is transcribed at code-unit level (QExprParseImpl): for every text <= 4 (thorough 5) units and every kind of "
+        "closing unit TLC checks that accepted lists end in an item without operator and that nothing behind the expression is read, "
+        "rejects the parser before 47b169e, and every state is replayed through ParseExpressions under ASan.",
    note="values outside the exact dyadic domain are unjudged; non-integral operands of ^ are specified as 'no value'; one known "
         "finding (sign of negative base ^ negative even exponent, pinned by EvaluateTest) is classified by the oracle itself.",
    technique="TLA+ expression semantics with all documented parse trees; TLC batch oracle over recorded evaluations; sanitizers for traps",
